@@ -8,7 +8,7 @@ tests = sys.argv[5:]
 budget = os.environ.get("SEEDED_BUDGET", "25")
 env = dict(os.environ, PYTHONPATH=wt + "/src")
 def sh(cmd, **kw):
-    return subprocess.run(cmd, shell=True, capture_output=True, text=True, **kw)
+    return subprocess.run(cmd, shell=True, capture_output=True, text=True, errors="replace", **kw)
 assert sh(f"git -C {wt} status --short --untracked-files=no").stdout.strip() == "", "worktree not clean"
 r0 = sh(f"/venv/bin/python {cdir}/demo.py", env=env, cwd=wt, timeout=600)
 assert sh(f"git -C {wt} apply {cdir}/patch.diff").returncode == 0
